@@ -7,7 +7,7 @@ use isograph_lang_types::{
     ScalarSelectionDirectiveSet, SelectionSet, SelectionType,
 };
 use prelude::{ErrClone, Postfix};
-use std::collections::HashSet;
+use std::collections::{BTreeMap, BTreeSet, HashSet};
 
 use crate::{
     ClientFieldVariant, CompilationProfile, FlattenedDataModelEntity, IsographDatabase,
@@ -21,6 +21,7 @@ pub(crate) fn validate_selection_sets<TCompilationProfile: CompilationProfile>(
     let selection_sets = reader_selection_set_map(db);
 
     let mut errors = vec![];
+    let mut client_selection_edges = vec![];
     for (key, selection_set) in selection_sets {
         let selection_set = match selection_set.clone_err() {
             Ok(s) => s,
@@ -51,6 +52,7 @@ pub(crate) fn validate_selection_sets<TCompilationProfile: CompilationProfile>(
         validate_selection_set(
             db,
             &mut errors,
+            &mut client_selection_edges,
             selection_set,
             parent_entity,
             EntityNameAndSelectableName {
@@ -60,7 +62,56 @@ pub(crate) fn validate_selection_sets<TCompilationProfile: CompilationProfile>(
         )
     }
 
+    validate_no_cyclic_client_selections(&mut errors, client_selection_edges);
+
     errors
+}
+
+type ClientSelectableKey = (EntityName, SelectableName);
+
+/// A non-loadable selection of a client selectable is inlined into its parent when
+/// merged selection sets and reader ASTs are created. A cycle of such selections
+/// would therefore never terminate, so we report it here.
+fn validate_no_cyclic_client_selections(
+    errors: &mut Vec<Diagnostic>,
+    edges: Vec<(ClientSelectableKey, ClientSelectableKey, EmbeddedLocation)>,
+) {
+    let mut adjacency: BTreeMap<ClientSelectableKey, BTreeSet<ClientSelectableKey>> =
+        BTreeMap::new();
+    for (from, to, _) in edges.iter() {
+        adjacency.entry(*from).or_default().insert(*to);
+    }
+
+    for (from, to, location) in edges {
+        // Is `from` reachable from `to`?
+        let mut visited = BTreeSet::new();
+        let mut stack = vec![to];
+        let mut is_cyclic = false;
+        while let Some(current) = stack.pop() {
+            if current == from {
+                is_cyclic = true;
+                break;
+            }
+            if !visited.insert(current) {
+                continue;
+            }
+            if let Some(next) = adjacency.get(&current) {
+                stack.extend(next.iter().copied());
+            }
+        }
+
+        if is_cyclic {
+            errors.push(Diagnostic::new(
+                format!(
+                    "`{}.{}` selects `{}.{}`, which (directly or indirectly) selects \
+                    `{}.{}` again. Cyclic selections of client fields and pointers \
+                    are only supported if the selection is @loadable.",
+                    from.0, from.1, to.0, to.1, from.0, from.1
+                ),
+                location.to::<Location>().wrap_some(),
+            ));
+        }
+    }
 }
 
 /// for each selection, validate that it corresponds to a selectable of the correct SelectionType,
@@ -68,6 +119,7 @@ pub(crate) fn validate_selection_sets<TCompilationProfile: CompilationProfile>(
 fn validate_selection_set<TCompilationProfile: CompilationProfile>(
     db: &IsographDatabase<TCompilationProfile>,
     errors: &mut Vec<Diagnostic>,
+    client_selection_edges: &mut Vec<(ClientSelectableKey, ClientSelectableKey, EmbeddedLocation)>,
     selection_set: &SelectionSet,
     parent_entity: &FlattenedDataModelEntity<TCompilationProfile>,
     selectable_declaration_info: EntityNameAndSelectableName,
@@ -234,7 +286,16 @@ fn validate_selection_set<TCompilationProfile: CompilationProfile>(
                                     scalar_selection.name.location.to::<Location>().wrap_some(),
                                 ));
                             }
-                            ScalarSelectionDirectiveSet::None(_) => {}
+                            ScalarSelectionDirectiveSet::None(_) => {
+                                client_selection_edges.push((
+                                    (
+                                        selectable_declaration_info.parent_entity_name,
+                                        selectable_declaration_info.selectable_name,
+                                    ),
+                                    (parent_entity.name.item, selectable_name),
+                                    scalar_selection.name.location,
+                                ));
+                            }
                         }
                     }
                 }
@@ -346,6 +407,15 @@ fn validate_selection_set<TCompilationProfile: CompilationProfile>(
                             ObjectSelectionDirectiveSet::None(_) => {}
                         }
 
+                        client_selection_edges.push((
+                            (
+                                selectable_declaration_info.parent_entity_name,
+                                selectable_declaration_info.selectable_name,
+                            ),
+                            (parent_entity.name.item, selectable_name),
+                            object_selection.name.location,
+                        ));
+
                         c.lookup(db).target_entity.inner()
                     }
                 }
@@ -367,6 +437,7 @@ fn validate_selection_set<TCompilationProfile: CompilationProfile>(
                 validate_selection_set(
                     db,
                     errors,
+                    client_selection_edges,
                     &object_selection.selection_set.item,
                     new_parent_entity,
                     selectable_declaration_info,
